@@ -85,4 +85,5 @@ def main():
         print("SURVIVOR %s:%d %s | %s  ==>  %s" % (r["file"], r["line"], r["kind"], r["old"], r["new"]))
 
 
-main()
+if __name__ == "__main__":
+    main()
